@@ -151,11 +151,10 @@ func (c *Channel) Deliver(out, x []byte) ([]byte, error) {
 			if err != nil {
 				continue
 			}
-			if isApp {
-				appData = out
-				return nil, nil
-			}
 			// if the session became ready, then make it the current and notify.
+			// This must happen before application data is handed out: the initiator also becomes
+			// ready by receiving data (when the data overtakes or replaces RespDone), and the key
+			// checks in onReadySession decide whether that data may be delivered at all.
 			if !readyBefore && s.IsReady() {
 				if i != 2 {
 					panic(i)
@@ -163,6 +162,10 @@ func (c *Channel) Deliver(out, x []byte) ([]byte, error) {
 				if err := c.onReadySession(now); err != nil {
 					return nil, err
 				}
+			}
+			if isApp {
+				appData = out
+				return nil, nil
 			}
 			if len(out) == 0 {
 				continue
